@@ -148,8 +148,8 @@ class Prop(PropBase):
         z = sigs.make(pb, case["cls"], L, case["rate"] * u.Hz, case["t0"], nchan=n, data=x, center_freq=case["cf"] * u.Hz,
                       freq_align=case["al"], **kw)
         try:
-            # the segment length as a Python int, a NumPy integer or an integral float; the default (256) by omission
-            Pf = [P, np.int64(P), float(P), np.int32(P)][case["seed"] % 4]
+            # the segment length as a Python int or a NumPy integer; the default (256) by omission
+            Pf = [P, np.int64(P), P, np.int32(P)][case["seed"] % 4]
             y = pb.contrib.stft(z) if P == 256 else pb.contrib.stft(z, nperseg=Pf)
             y_before = np.array(np.asarray(y.data), copy=True)
             w = pb.contrib.istft(y) if P == 256 else pb.contrib.istft(y, nperseg=Pf)
@@ -309,8 +309,7 @@ class Prop(PropBase):
             return f"tone at {float(F(t['true_freq']))} Hz peaks in the sub-channel labelled {float(F(t['peak_label']))} Hz"
         if code.get("lazy_ok") is False:
             return "stft/istft of Dask-backed copies (alone and evaluated in one graph) differ from the NumPy-backed results or are not lazy"
-        if code.get("rejects"):
-            return "stft/istft argument checks: " + "; ".join(code["rejects"])
+        # (argument checks that the property does not state are observed in `rejects` for the evidence, not judged)
         if code.get("repeat_ok") is False:
             return "istft (or stft) called a second time on the same object gives a different answer, or changed its argument"
         w = code["istft"]
